@@ -9,7 +9,8 @@ SOLVERS = {
     'cvc5':  lambda to: ['cvc5', '--incremental', '--lang=smt2', '--produce-models', '--tlimit-per=%d' % int(to * 1000)],
 }
 DEFAULT = ['z3', 'z3new', 'cvc5']
-STATS = {'queries': 0, 'solver_s': 0.0, 'by_solver': {}, 'scripts': 0}
+STATS = {'queries': 0, 'solver_s': 0.0, 'by_solver': {}, 'scripts': 0, 'confirmed_by_second_solver': 0}
+CONFIRM_WAIT = 0.0   # thorough tier: seconds to keep the other solvers running after the first definite answer
 _lock = threading.Lock()
 
 
@@ -79,6 +80,10 @@ def race(script, n_expected=1, timeout=60.0, solvers=None, need_all=False):
     else:
         while any(th.is_alive() for th in threads) and not stop.is_set():
             stop.wait(0.02)
+        if CONFIRM_WAIT > 0:
+            t_end = time.time() + CONFIRM_WAIT
+            while time.time() < t_end and sum(1 for s_ in solvers if s_ in box and box[s_][0] is not None and definite(s_)) < 2 and any(th.is_alive() for th in threads):
+                time.sleep(0.02)
         for s in solvers:
             p = box.get('_proc_' + s)
             if p is not None and p.poll() is None:
@@ -100,6 +105,8 @@ def race(script, n_expected=1, timeout=60.0, solvers=None, need_all=False):
         if ok and (best is None or secs < per[best]['secs']):
             best = s
     with _lock:
+        if sum(1 for d_ in per.values() if d_['definite']) >= 2:
+            STATS['confirmed_by_second_solver'] += n_expected
         STATS['queries'] += n_expected
         STATS['scripts'] += 1
         STATS['solver_s'] += time.time() - t0
